@@ -17,8 +17,8 @@ if [ "$3" != "--notests" ]; then
   tests=$(cat /tmp/sc-$name-tests.log)
 fi
 cd /verif
-out=$(WGVC_REPO=$W WGVC_OUT=$W/.wgvc-out ./check $pid 2>&1 | grep -v "^WARNING" | tail -5)
-rc=$(WGVC_REPO=$W WGVC_OUT=$W/.wgvc-out ./check $pid >/dev/null 2>&1; echo $?)
+WGVC_REPO=$W WGVC_OUT=$W/.wgvc-out ./check $pid > /tmp/sc-$name-check.log 2>&1; rc=$?
+out=$(grep -v "^WARNING" /tmp/sc-$name-check.log | tail -5)
 mkdir -p /verif/seeded/$name
 cp $src/patch.diff $src/demo.py /verif/seeded/$name/
 [ -f $src/notes.md ] && cp $src/notes.md /verif/seeded/$name/
@@ -31,6 +31,8 @@ meta={"property":pid,"name":name,"demo_exit_clean":int(clean),"demo_exit_patched
       "ran":["demo.py on clean scratch worktree","git apply patch.diff","demo.py on patched worktree","pinned test suite on patched worktree","./check %s with WGVC_REPO=<patched worktree>"%pid]}
 try:
     old=json.load(open(f'/verif/seeded/{name}/meta.json')); meta["needs_to_manifest"]=old.get("needs_to_manifest","see notes.md")
+    if tests=="skipped" and old.get("pinned_tests_with_patch","skipped")!="skipped":
+        meta["pinned_tests_with_patch"]=old["pinned_tests_with_patch"]
 except Exception: meta["needs_to_manifest"]="see notes.md"
 json.dump(meta,open(f'/verif/seeded/{name}/meta.json','w'),indent=1)
 print(json.dumps(meta))
